@@ -444,7 +444,8 @@ RUNSYNC_TRUST = [
     "collect_dirs, report (prints), TransferProgress (opaque), Instant::now (R5 shim instant_now), Result::unwrap_or_default on a MetaMap (R5 shim meta_or_empty), `x.display().to_string()` => opaque text: no file-system access (ASSUMED)",
     "remote command log extended by the variant Deliver{host, path}: one `cat > tmp && [ size ] && mv` command of transfer_file_to_remote (the shell itself has no contract: C09's push clause is decided by the crash oracle)",
 ]
-_RS_C15 = {"run_local": [r"planned_eff", r"planned_path", r"planned_cmd", r"^\s*log_extends", r"^\s*dir is P"], "run_remote": [r"planned_eff", r"planned_path", r"planned_cmd", r"^\s*log_extends", r"^\s*dir is P"]}
+_RS_C15 = {"run_local": [r"planned_eff", r"planned_path", r"planned_cmd", r"^\s*log_extends", r"^\s*dir is P", r"want_delete\("], "run_remote": [r"planned_eff", r"planned_path", r"planned_cmd", r"^\s*log_extends", r"^\s*dir is P", r"want_delete\("]}
+_RS_C19 = {"run_local": [r"opts\.dry_run ==>", r"!opts\.delete ==>", r"planned_path"], "run_remote": [r"opts\.dry_run ==>", r"!opts\.delete ==>", r"^\s*dir is P"]}
 _RS_C04 = {"run_local": [r"opts\.dry_run ==>", r"!opts\.delete ==>"], "run_remote": [r"opts\.dry_run ==>", r"!opts\.delete ==>"]}
 
 PROPS["C04"] = dict(
@@ -508,3 +509,22 @@ PROPS["C04"]["not_decided"] = [x for x in PROPS["C04"]["not_decided"] if "host:p
 PROPS["C06"]["kani"] = [dict(harness="c06_short_hex_is_hex12", repo_fn="src/bin/copia/bidir.rs short_hex", tier="thorough", timeout=3000,
     desc="forall 32-byte digests: short_hex(h) is exactly 12 bytes, the lower-case hex digits of h[0..6] in order, leading zeros kept (complete: full-domain symbolic digest, the 6 iterations unwound with unwinding assertions; ~10 min of CBMC, hence thorough tier only). The function text is copied byte for byte from the tree on every run (kani/extracted.tmpl.rs), because a private function of a binary module cannot be reached through #[path]")]
 PROPS["C06"]["clauses"]["short_hex (Kani, thorough tier)"] = "the <hex12> of `<path>.conflict-<host>-<hex12>` is the first 12 lower-case hex digits of the losing version's BLAKE3, for every digest"
+
+
+# ---- round 4: the drivers also serve C19 (the plan over BOTH listings is what a run carries out), sync_files serves C16 ----
+PROPS["C19"]["units"].append(dict(template="units/runsync.rs", slice=["run_local", "run_remote"], ignore_clauses=_RS_C19))
+PROPS["C19"]["clauses"]["run_local / run_remote: the plan is the one over both listings"] = "every effect of a run belongs to want_transfer / want_delete computed over the source listing AND the destination listing as scanned (an emptied source does not skip the destination scan); with --delete a successful real run leaves no want_delete path (local, pull) resp. sends the ONE removal command for exactly that set (push)"
+PROPS["C19"]["trusted"] = PROPS["C19"]["trusted"] + ONEWAY_TRUST + RUNSYNC_TRUST
+PROPS["C19"]["twins"] = PROPS["C19"].get("twins", []) + [dict(name="dry_run_inert", repo_fn="src/bin/copia/incremental.rs run_local / run_remote with --dry-run", quick=1, thorough=1, needs_cli=True,
+    contract="the plan `sync -r --dry-run` prints is the property's plan: 30 real runs (3 directions x the C04 tree with 5 flag sets, an EMPTY source with 3 flag sets, a file-vs-directory tree with 2)")]
+PROPS["C04"]["clauses"]["--delete is carried out (run_local, run_remote)"] = "Ok && no I/O fault && --delete && real run ==> no path with want_delete is left (local, pull); push: the ONE `rm` command for exactly that set was sent - whatever the source listing is (an EMPTY source deletes everything not excluded)"
+PROPS["C16"]["units"].append(dict(template="units/singlesync.rs", slice=["AsyncCopiaSync::sync_files"], ignore_clauses={"sync_files": [r"final\(w\)\.files\[aspr", r"source_size"]}))
+PROPS["C16"]["clauses"]["AsyncCopiaSync::sync_files (single-file `sync`)"] = "under collision_free() and without an I/O fault: destination present and different ==> bytes_literal == g_lit(source, destination, self's block size, 0): the REQUESTED block size is the one used"
+PROPS["C16"]["trusted"] = PROPS["C16"]["trusted"] + SINGLE_TRUST
+PROPS["C16"]["twins"].append(dict(name="greedy_pairs", repo_fn="src/sync.rs CopiaSync::delta, src/async_sync.rs AsyncCopiaSync::{delta, sync_files}", quick=3, thorough=60,
+    contract="on generated (basis, source) pairs at every block size, incl. 44 insert lengths up to 11 KB: literal bytes of CopiaSync::delta, AsyncCopiaSync::delta and AsyncCopiaSync::with_block_size(bs).sync_files <= the textbook greedy scan AT THAT BLOCK SIZE"))
+for f in ("sync_files",):
+    PROPS["C01"]["units"][1].setdefault("ignore_clauses", {})[f] = [r"g_lit\("]
+# C18: the glue that feeds reconcile (tree scans) must hand it content fingerprints - exercised by the bisync histories
+PROPS["C18"]["twins"] = PROPS["C18"].get("twins", []) + [dict(BISYNC_TWIN, only_re=r"\(C18\)")]
+PROPS["C18"].setdefault("not_decided", []).append("that the tree scans in front of reconcile (discover_local_fingerprints) report content fingerprints, independent of size and mtime, is by contract in unit bisync; on the real binary it is exercised by the history twin (two histories with equal sizes and equal old mtimes)")
